@@ -154,3 +154,114 @@ Proof.
   - apply andb_true_iff in H as [Hf Hm]. apply Nat.eqb_eq in Hm. subst m. rewrite Hf in Hp. exact Hp.
   - apply negb_true_iff in H. rewrite H in Hp. exact Hp.
 Qed.
+
+(* ------------------------------------------------------------------ the other observation checkers *)
+
+Theorem spec_pa_sound strict addr rc chk av : spec_pa strict addr rc chk av = true ->
+  (0 <= rc <= 4)%Z
+  /\ (rc = 3%Z -> mailbox pton4_ref pton6_ref lweak 3 (cstr_of addr))
+  /\ (rc = 4%Z -> mailbox pton4_ref pton6_ref lweak 4 (cstr_of addr))
+  /\ (rc = 1%Z -> fqdn (cstr_of addr)).
+Proof.
+  unfold spec_pa. cbn zeta. intros H. apply andb_true_iff in H as [_ H].
+  destruct (Z.eqb_spec rc 0) as [->|H0]; [repeat split; try lia; discriminate|].
+  destruct (Z.eqb_spec rc 1) as [->|H1]; [repeat split; try lia; try discriminate; intros _; now apply fqdn_b_iff|].
+  destruct (Z.eqb_spec rc 2) as [->|H2]; [repeat split; try lia; discriminate|].
+  destruct (Z.eqb_spec rc 3) as [->|H3].
+  { repeat split; try lia; try discriminate. intros _. apply mailbox_b_sound in H. eapply mailbox_mono; [|exact H]. intros l [Hl _]; exact Hl. }
+  destruct (Z.eqb_spec rc 4) as [->|H4]; [|discriminate].
+  repeat split; try lia; try discriminate. intros _. apply mailbox_b_sound in H. eapply mailbox_mono; [|exact H]. intros l [Hl _]; exact Hl.
+Qed.
+
+Theorem spec_xt_sound strict str n : spec_xt strict str n = true ->
+  n = (-1)%Z \/
+  ((0 <= n)%Z /\ exists d, xdecode (firstn (Z.to_nat n) str) = Some d
+     /\ xtext_value pton4_ref pton6_ref d
+     /\ (nth (Z.to_nat n) (str ++ [0%N]) 1%N = 0%N \/ nth (Z.to_nat n) (str ++ [0%N]) 1%N = SP)).
+Proof.
+  unfold spec_xt. destruct (Z.ltb_spec n 0) as [Hneg|Hpos]; [intros H; apply Z.eqb_eq in H; now left|].
+  cbn zeta. intros H. right. split; [exact Hpos|].
+  apply andb_true_iff in H as [H Hd]. apply andb_true_iff in H as [_ He].
+  destruct (xdecode (firstn (Z.to_nat n) str)) as [d|]; [|discriminate]. exists d. split; [reflexivity|]. split.
+  - unfold xtext_value.
+    apply orb_true_iff in Hd as [Hd|H4]; [apply orb_true_iff in Hd as [Hd|H3]; [apply orb_true_iff in Hd as [H0|Hn]|]|].
+    + left. apply Nat.eqb_eq in H0. destruct d; [reflexivity|discriminate].
+    + right. left. now apply bytes_eqb_eq.
+    + right. right. left. apply mailbox_b_sound in H3. eapply mailbox_mono; [|exact H3]. intros l [Hl _]; exact Hl.
+    + right. right. right. apply mailbox_b_sound in H4. eapply mailbox_mono; [|exact H4]. intros l [Hl _]; exact Hl.
+  - apply orb_true_iff in He as [E|E]; apply N.eqb_eq in E; auto.
+Qed.
+
+(* ------------------------------------------------------------------ completeness of the recognisers *)
+
+Lemma lweak_b_quoted q : qcontent q -> forall r, lweak_b true (q ++ cQUOTE :: r) = lweak_b false r.
+Proof.
+  induction 1 as [|c q Hc _ IH|e q He _ IH]; intros r.
+  - cbn [app lweak_b negb]. now rewrite N.eqb_refl.
+  - destruct (qtext_not_special c Hc) as [H1 H2]. apply N.eqb_neq in H1, H2.
+    cbn [app lweak_b negb]. rewrite H1, H2, Hc. cbn [andb]. apply IH.
+  - cbn [app lweak_b negb]. change (N.eqb cBSL cQUOTE) with false. rewrite N.eqb_refl.
+    assert (Ee : N.eqb e cQUOTE || N.eqb e cBSL = true) by (destruct He as [-> | ->]; reflexivity).
+    rewrite Ee. cbn [andb]. apply IH.
+Qed.
+
+(** [lweak_b] decides [lweak] *)
+Theorem lweak_b_iff l : lweak_b false l = true <-> lweak l.
+Proof.
+  split; [apply lweak_b_ok|].
+  induction 1 as [|c r Hc _ IH|q r Hq _ IH]; [reflexivity| |].
+  - cbn [lweak_b negb].
+    assert (Hnq : N.eqb c cQUOTE = false).
+    { apply N.eqb_neq. destruct Hc as [Hc| ->]; [apply atext_not_special in Hc; tauto|discriminate]. }
+    rewrite Hnq. assert (Hu : atext c || N.eqb c DOT = true) by (destruct Hc as [Hc| ->]; [now rewrite Hc|reflexivity]).
+    now rewrite Hu, IH.
+  - cbn [lweak_b negb]. rewrite N.eqb_refl. now rewrite lweak_b_quoted.
+Qed.
+
+Lemma before_behind_app c lp dom : ~ In c lp -> before c (lp ++ c :: dom) = lp /\ behind c (lp ++ c :: dom) = Some dom.
+Proof.
+  induction lp as [|x lp IH]; intros Hn; cbn [app before behind].
+  - rewrite N.eqb_refl. auto.
+  - apply not_in_cons in Hn as [Hx Hn]. destruct (N.eqb_spec x c); [congruence|].
+    destruct (IH Hn) as [E1 E2]. now rewrite E1, E2.
+Qed.
+
+Lemma literal_body_b_complete lit : literal_body pton4_ref pton6_ref lit -> literal_body_b lit = true.
+Proof.
+  unfold literal_body, literal_body_b. intros [[H4 Hl]|(l6 & -> & H6 & Hl)].
+  - destruct (starts_with TAG6 lit) eqn:E.
+    + apply starts_with_split in E. rewrite E in H4. cbn in H4. discriminate.
+    + rewrite H4. apply Nat.ltb_lt in Hl. now rewrite Hl.
+  - assert (E : starts_with TAG6 (TAG6 ++ l6) = true).
+    { unfold starts_with. rewrite firstn_app_exact. apply bytes_eqb_refl. }
+    rewrite E. rewrite skipn_app_exact, H6. rewrite app_length.
+    replace (length TAG6 + length l6 - length TAG6) with (length l6) by lia.
+    apply Nat.ltb_lt in Hl. now rewrite Hl.
+Qed.
+
+(** [mailbox_b] decides [mailbox] (with the reference oracle; local part [lweak], and Dot-string/Quoted-string
+    when [strict]) *)
+Theorem mailbox_b_iff strict rc s :
+  mailbox_b strict rc s = true <->
+  mailbox pton4_ref pton6_ref (fun lp => lweak lp /\ (strict = true -> local_rfc lp)) rc s.
+Proof.
+  split; [apply mailbox_b_sound|].
+  intros (lp & dom & -> & Hne & Hat & [Hw Hs] & Hd).
+  unfold mailbox_b. destruct (before_behind_app cAT lp dom Hat) as [E1 E2]. rewrite E1, E2.
+  assert (Hl : negb (Nat.eqb (length lp) 0) = true) by (destruct lp; [congruence|reflexivity]).
+  rewrite Hl, (proj2 (lweak_b_iff lp) Hw). cbn [andb].
+  assert (Hst : negb strict || local_rfc_b lp = true).
+  { destruct strict; [|reflexivity]. cbn [negb orb]. apply local_rfc_b_iff. now apply Hs. }
+  rewrite Hst. cbn [andb].
+  destruct Hd as [[-> Hf]|[-> (lit & -> & Hnr & Hlit)]].
+  - cbn [Nat.eqb]. now apply fqdn_b_iff.
+  - cbn [Nat.eqb]. rewrite N.eqb_refl. cbn [andb].
+    assert (Hlast : last (lit ++ [cRBR]) 0%N = cRBR) by (rewrite last_app_cons; reflexivity).
+    rewrite Hlast, N.eqb_refl. cbn [andb].
+    assert (Hlen : negb (Nat.eqb (length (lit ++ [cRBR])) 0) = true) by (rewrite app_length; cbn [length]; destruct (length lit); reflexivity).
+    rewrite Hlen, removelast_last. cbn [andb].
+    assert (Hex : existsb (N.eqb cRBR) lit = false).
+    { destruct (existsb (N.eqb cRBR) lit) eqn:E; [|reflexivity]. apply existsb_exists in E as (x & Hx & Ex).
+      apply N.eqb_eq in Ex. subst x. contradiction. }
+    rewrite Hex. cbn [negb andb]. now apply literal_body_b_complete.
+Qed.
